@@ -413,18 +413,29 @@ def kd_rules(ctx: Ctx, rs: RuleSet, L: str, helpers):
              'and others by name', 1)
   f = ctx.func('fiddle._src.config.ordered_arguments')
   ok_idx = ok_name = False
+  # the loop variables: for <index>, (<name>, <param>) in enumerate(....items())
+  idx_var = name_var = None
+  for n in walk_function(f.node):
+    if isinstance(n, ast.For) and isinstance(n.iter, ast.Call) and unparse(
+        n.iter.func) == 'enumerate' and isinstance(
+            n.target, ast.Tuple) and len(n.target.elts) == 2 and isinstance(
+                n.target.elts[0], ast.Name) and isinstance(
+                    n.target.elts[1], ast.Tuple) and isinstance(
+                        n.target.elts[1].elts[0], ast.Name):
+      idx_var = n.target.elts[0].id
+      name_var = n.target.elts[1].elts[0].id
   for n in walk_function(f.node):
     if isinstance(n, ast.If) and kinds_on_branch(n.test, True) == {
         'POSITIONAL_ONLY'}:
       for s in n.body:
         if isinstance(s, ast.Assign) and isinstance(
             s.targets[0], ast.Subscript) and isinstance(
-                s.targets[0].slice, ast.Name) and s.targets[0].slice.id == 'index':
+                s.targets[0].slice, ast.Name) and s.targets[0].slice.id == idx_var:
           ok_idx = True
       for s in n.orelse:
         if isinstance(s, ast.Assign) and isinstance(
             s.targets[0], ast.Subscript) and isinstance(
-                s.targets[0].slice, ast.Name) and s.targets[0].slice.id == 'name':
+                s.targets[0].slice, ast.Name) and s.targets[0].slice.id == name_var:
           ok_name = True
   rs.check(ok_idx and ok_name, rule, f'{f.qualname}:keys',
            'POSITIONAL_ONLY -> result[index], otherwise result[name]',
